@@ -76,6 +76,12 @@ namespace ip {
 	{
 		m_queue_size_limit = -1;
 		cancel(ec);
+
+		// connection attempts that are still waiting to be accepted die with
+		// the acceptor. They must not be picked up by a later accept, after
+		// the acceptor has been opened and bound again
+		m_incoming_conns.clear();
+
 		socket::close(ec);
 	}
 
